@@ -28,6 +28,15 @@ CLAIMED = {
              "tie = verify/write_to_buffer through the pub API on boundary values of every x86-64/AArch64 row + wild binary end-to-end on x86-64 data relocations.",
         technique="Coq proof (finite row checks lifted by soundness lemmas) over a model regenerated from source + correspondence run",
         design_ref="DESIGN.md §3 C12"),
+    "C16": dict(
+        text="S1 for evaluation: theorem eval_agrees (induction over all expression trees): whenever GNU ld's semantics (stated independently over Z: exact arithmetic "
+             "reduced mod 2^64, signed division, shift counts mod 64, unsigned comparisons, 0/1 logic) give a value, the evaluator gives the same 64-bit value; assert_fails_iff. "
+             "Parser: token-level model of the ten parse_* levels as a table-driven parser; theorem that wild's level table equals ldgram.y's except for the comparison level "
+             "(refuted witness = known finding); the parse(show e)=e round trip is validated by the tie on all 17x17 operator pairs + random trees, not proved (partial).",
+        note="Trusted: Coq kernel + vm_compute, no axioms; hand model of linker_script.rs/expression_eval.rs (constant fragment: no ALIGN/SIZEOF/symbols); lexing done by the generator; "
+             "spec validated against installed GNU ld 2.40 via ASSERT scripts (XOR not validatable: ld 2.40 lexer lacks ^); tie through verif_hooks::linker_script and the wild binary.",
+        technique="Coq proof by structural induction (N model vs Z specification) + table comparison + model/implementation correspondence by vm_compute",
+        design_ref="DESIGN.md §3 C16"),
 }
 
 PENDING_REASON = "not claimed yet: model/theorems for this property are not built in this revision (see DESIGN.md §8 construction order)"
